@@ -3,6 +3,7 @@ package wprog
 // Expressions and the C01 obligations attached to them.
 
 import (
+	"fmt"
 	a "github.com/google/wuffs/lang/ast"
 	t "github.com/google/wuffs/lang/token"
 )
@@ -148,7 +149,24 @@ func typeBits(p *Program, typ *a.TypeExpr) uint {
 
 // ---- eval
 
+// eval evaluates e and, while monitoring, checks the C01 clause "every value
+// ... lies inside the range the compiler derived for that use": the bounds the
+// checker attached to the expression node (MBounds) must contain the value
+// every time the node is evaluated.
 func (in *interp) eval(fr *frame, e *a.Expr) value {
+	v := in.eval0(fr, e)
+	if v.k == vkNum && in.monitoring() {
+		if mb := e.MBounds(); mb[0] != nil && mb[1] != nil {
+			if x := v.n.big(); x.Cmp(mb[0]) < 0 || x.Cmp(mb[1]) > 0 {
+				in.event(Event{Prop: "C01", Kind: "value-outside-derived-range", Node: in.nodeText(fr, e), Line: fr.line,
+					Values: v.n.String(), Limit: fmt.Sprintf("[%s ..= %s]", mb[0], mb[1])})
+			}
+		}
+	}
+	return v
+}
+
+func (in *interp) eval0(fr *frame, e *a.Expr) value {
 	if cv := e.ConstValue(); cv != nil {
 		typ := e.MType()
 		switch {
